@@ -28,6 +28,8 @@
 #include "tcp_cache_client.h"
 #include "tcp_cache_protocol.h"
 #include "tcp_messenger.h"
+#include "session_memory_storage.h"
+#include "session_tcp_storage.h"
 #include <cppcms/session_storage.h>
 #include <booster/thread.h>
 #include <set>
@@ -189,7 +191,8 @@ static std::string do_cfg(std::string const &sl,std::string const &ll)
 		n->cache=thread_cache_factory(strtoul(a[i].c_str(),0,10));
 		for(int attempt=0;;attempt++) {
 			n->port=free_port();
-			try { n->svc.reset(new tcp_cache_service(n->cache,sfact(),1,"127.0.0.1",n->port)); break; }
+			// every server also gets a session storage (session_memory_storage), as cppcms_scale configures it
+			try { n->svc.reset(new tcp_cache_service(n->cache,sfact(new cppcms::sessions::session_memory_storage_factory()),1,"127.0.0.1",n->port)); break; }
 			catch(std::exception const &e) { if(attempt>50) throw; }
 		}
 		ips.push_back("127.0.0.1"); ports.push_back(n->port);
@@ -259,6 +262,7 @@ static void *peer_accept(void *arg)
 	return 0;
 }
 static std::unique_ptr<tcp_cache> peer_client;
+static std::unique_ptr<cppcms::sessions::tcp_storage> peer_sess;
 static tcp_cache &scripted_client()
 {
 	if(!peer_client) {
@@ -266,6 +270,7 @@ static tcp_cache &scripted_client()
 		pthread_t t; pthread_create(&t,0,peer_accept,(void*)(intptr_t)ls); pthread_detach(t);
 		std::vector<std::string> ips(1,"127.0.0.1"); std::vector<int> ports(1,peer_port);
 		peer_client.reset(new tcp_cache(ips,ports));
+		peer_sess.reset(new cppcms::sessions::tcp_storage(ips,ports));
 	}
 	return *peer_client;
 }
@@ -304,6 +309,25 @@ static std::string do_cw(std::vector<std::string> const &w)
 	}
 	if(w.size()==4 && w[1]=="rise") { std::string t; if(!parse_trig(w[2],t) || !set_reply(w[3])) return "bad-op"; tc.rise(t); return got_request(); }
 	if(w.size()==3 && w[1]=="clear") { if(!set_reply(w[2])) return "bad-op"; tc.clear(); return got_request(); }
+	if(w.size()==6 && w[1]=="ssave") {
+		std::string sid,v;
+		if(!vh::unhex(w[2],sid) || !parse_val(w[4],v) || !set_reply(w[5])) return "bad-op";
+		peer_sess->save(sid,strtoll(w[3].c_str(),0,10),v);
+		return got_request();
+	}
+	if(w.size()==4 && w[1]=="sremove") {
+		std::string sid; if(!vh::unhex(w[2],sid) || !set_reply(w[3])) return "bad-op";
+		peer_sess->remove(sid);
+		return got_request();
+	}
+	if(w.size()==4 && w[1]=="sload") {
+		std::string sid,out="previous"; time_t to=77;
+		if(!vh::unhex(w[2],sid) || !set_reply(w[3])) return "bad-op";
+		bool ok=peer_sess->load(sid,to,out);
+		std::ostringstream ss; ss<<got_request()<<" ";
+		if(ok) ss<<"some "<<(long long)to<<" "<<vh::hex(out); else ss<<"none";
+		return ss.str();
+	}
 	if(w.size()==3 && w[1]=="stats") {
 		if(!set_reply(w[2])) return "bad-op";
 		unsigned k=7,t=7; tc.stats(k,t);
@@ -336,6 +360,7 @@ static std::string do_layout()
 	OFF("data.generation",operations.data.generation); OFF("data.timeout",operations.data.timeout);
 	OFF("data.data_len",operations.data.data_len); OFF("data.triggers_len",operations.data.triggers_len);
 	OFF("out_stats.keys",operations.out_stats.keys); OFF("out_stats.triggers",operations.out_stats.triggers);
+	OFF("session_save.timeout",operations.session_save.timeout); OFF("session_data.timeout",operations.session_data.timeout);
 	ss<<"sizeof="<<sizeof(tcp_operation_header);
 	// the model takes time_t = int64_t (to_time_t is then the identity) and a little-endian host
 	uint32_t one=1;
@@ -444,6 +469,7 @@ int main()
 {
 	pthread_t wd; pthread_create(&wd,0,watchdog,0); pthread_detach(wd);
 	int r=vh::drive(run);
+	peer_sess.reset();
 	peer_client.reset();
 	drop_cluster();
 	return r;
